@@ -190,3 +190,89 @@ Section GCostFacts.
     etransitivity; [exact He'|]. rewrite app_assoc. f_equal. exact He.
   Qed.
 End GCostFacts.
+
+(* ---------------------------------------------------------------------------------------------- *)
+(* Tier S: sign, the all-breakpoints case (structure), compute_global_rmse, mip *)
+Section MoreFacts.
+  Context {N : Num}.
+  Variable n : nat.
+
+  (* the only law used: 0 < 0 is false (true of IEEE doubles and of R) *)
+  Lemma clip_nonneg (x : T N) : (@zero N <?! zero) = false -> (clip x <?! zero) = false.
+  Proof. intros H0. unfold clip. destruct (x <?! zero) eqn:E; auto. Qed.
+
+  (* gcost_nonneg: whatever the dict holds, the returned cost is never below zero *)
+  Theorem gcost_nonneg segerr tss m (c : @cache N) red :
+    (@zero N <?! zero) = false -> (fst (gcost n segerr tss m c red) <?! zero) = false.
+  Proof.
+    intros H0. unfold gcost. destruct (seg_errors _ _ _) as [errs sc].
+    unfold compute_cost. destruct m; cbn [fst]; unfold finish; apply clip_nonneg; auto.
+  Qed.
+
+  (* consecutive indices: every segment has two points, so every segment error is the literal 0 *)
+  Lemma seg_len_succ i : seg_len n i (S i) <= 2.
+  Proof. unfold seg_len. lia. Qed.
+  Lemma seg_pairs_seq : forall k a, seg_pairs a (seq (S a) k) = map (fun i => (i, S i)) (seq a k).
+  Proof. induction k as [|k IH]; intros a; cbn [seq seg_pairs map]; auto. rewrite IH. reflexivity. Qed.
+  Lemma seg_values_all_points segerr k :
+    seg_values (@seg_fresh N n segerr) (seq 0 k) = repeat zero (k - 1).
+  Proof.
+    unfold seg_values. destruct k as [|k]; [reflexivity|]. cbn [seq segments]. rewrite seg_pairs_seq, map_map.
+    cbn [fst snd]. replace (S k - 1) with k by lia. generalize 0 as a.
+    induction k as [|k IH]; intros a; cbn [seq map repeat]; auto.
+    rewrite IH. f_equal. unfold seg_fresh. pose proof (seg_len_succ a) as H. apply Nat.leb_le in H. rewrite H. reflexivity.
+  Qed.
+
+  Variable sqerr : nat -> nat -> T N.
+  Notation grmse := (@grmse N n sqerr).
+  Notation grmse_fresh := (@grmse_fresh N n sqerr).
+
+  Definition grmse_spec (red : list nat) : T N := sqrt (np_sum (seg_values sqerr red) /! ofN n).
+
+  (* cache_inv for compute_global_rmse *)
+  Theorem grmse_inv c red :
+    agrees sqerr c ->
+    fst (grmse c red) = grmse_spec red /\ fst (grmse c red) = grmse_fresh red /\
+    agrees sqerr (snd (grmse c red)) /\ exists ext, snd (grmse c red) = c ++ ext.
+  Proof.
+    assert (Hgen : forall c, agrees sqerr c ->
+      fst (grmse c red) = grmse_spec red /\ agrees sqerr (snd (grmse c red)) /\ exists ext, snd (grmse c red) = c ++ ext).
+    { clear c. intros c Hc. unfold GlobalCost.grmse.
+      destruct (seg_errors_inv sqerr c red Hc) as (Hv & Hc' & Hext).
+      destruct (seg_errors sqerr c red) as [errs c']. cbn [fst snd] in *.
+      split; [unfold grmse_spec; congruence|auto]. }
+    intros Hc. destruct (Hgen c Hc) as (H1 & H2 & H3). destruct (Hgen [] (agrees_nil sqerr)) as (H1' & _).
+    split; [exact H1|]. split; [unfold GlobalCost.grmse_fresh; congruence|]. split; [exact H2|exact H3].
+  Qed.
+  Corollary grmse_def red : grmse_fresh red = grmse_spec red.
+  Proof. unfold GlobalCost.grmse_fresh. apply (grmse_inv [] red (agrees_nil sqerr)). Qed.
+
+  Theorem grmse_transparent : forall qs c,
+    agrees sqerr c ->
+    map fst (rmse_shared n sqerr c qs) = map grmse_fresh qs.
+  Proof.
+    induction qs as [|q qs IH]; intros c Hc; cbn [rmse_shared map]; auto.
+    destruct (grmse_inv c q Hc) as (_ & Hv & Hc' & _).
+    destruct (grmse c q) as [v c']. cbn [fst snd map] in *. rewrite (IH c' Hc'). congruence.
+  Qed.
+
+  (* mip_def: although mip threads ONE dict through the final RMSE and every reference RMSE, its result is the
+     median (and MAD) over the interior breakpoints i of  RMSE(reduced without i) - RMSE(reduced),
+     each RMSE being the fresh-dict value *)
+  Lemma mip_loop_spec fin red : forall is c,
+    agrees sqerr c ->
+    mip_loop n sqerr fin red c is = map (fun i => grmse_fresh (delete_at i red) -! fin) is.
+  Proof.
+    induction is as [|i is IH]; intros c Hc; cbn [mip_loop map]; auto.
+    destruct (grmse_inv c (delete_at i red) Hc) as (_ & Hv & Hc' & _).
+    destruct (grmse c (delete_at i red)) as [v c']. cbn [fst snd] in *.
+    rewrite (IH c' Hc'). congruence.
+  Qed.
+  Theorem mip_def red : mip n sqerr red = mip_spec n sqerr red.
+  Proof.
+    unfold mip, mip_spec, mip_ip.
+    destruct (grmse_inv [] red (agrees_nil sqerr)) as (_ & Hv & Hc & _).
+    destruct (grmse [] red) as [fin c0] eqn:E. cbn [fst snd] in *.
+    rewrite mip_loop_spec by exact Hc. rewrite Hv. reflexivity.
+  Qed.
+End MoreFacts.
